@@ -82,6 +82,10 @@ type family struct {
 	ReaderAllow func(startData []byte) []string
 	// NoSigDifferential: the signature-set part of check (6) does not apply (apk: two schemes coexist)
 	NoSigDifferential bool
+	// SigItemShapes: the list of signature-related archive members the
+	// independent reader finds (names with identifiers blanked) is a function
+	// of the last operation alone, and is compared with it
+	SigItemShapes bool
 	// WantRelicCount overrides the number of signatures relic's verifier should report
 	WantRelicCount func(fam *family, h []int) int
 	// UnreadableClass may give a narrower class name for an unreadable output
@@ -475,6 +479,18 @@ func (x *explorer) observe(path string, h []int) *observation {
 	return obs
 }
 
+var identRun = regexp.MustCompile(`[0-9A-Fa-f]{8,}|\{?[0-9A-Fa-f]{8}-[0-9A-Fa-f-]{27}\}?`)
+
+// sigItemShapes: sorted member names with identifier-like runs blanked.
+func sigItemShapes(names []string) string {
+	var out []string
+	for _, n := range names {
+		out = append(out, identRun.ReplaceAllString(n, "*"))
+	}
+	sort.Strings(out)
+	return strings.Join(out, " | ")
+}
+
 func sameSigs(a, b []sigObs, slot string, slots bool) bool {
 	f := func(in []sigObs) []sigObs {
 		if !slots {
@@ -547,6 +563,11 @@ func (x *explorer) step(parent *node, oi int) *node {
 		if r := x.ref[oi]; r != nil {
 			if r.Payload != nil && obs.Payload != nil && len(payload.Diff(r.Payload, obs.Payload)) > 0 {
 				report(x.key("differential:payload-after-history-differs-from-single-signing"), fmt.Sprintf("%s: payload after [%s] differs from payload after [%s] alone", x.st.ID, histString(fam, h), o.Name), x.replay(h), weight)
+			}
+			if fam.SigItemShapes && r.Payload != nil && obs.Payload != nil {
+				if a, b := sigItemShapes(r.Payload.SigItems), sigItemShapes(obs.Payload.SigItems); a != b {
+					report(x.key("differential:signature-members-after-history-differ-from-single-signing"), fmt.Sprintf("%s: signature-related members after [%s] = %s; after [%s] alone = %s", x.st.ID, histString(fam, h), b, o.Name, a), x.replay(h), weight)
+				}
 			}
 			if !fam.NoSigDifferential && !sameSigs(r.Sigs, obs.Sigs, o.Slot, fam.Slots) {
 				report(x.key("differential:signature-set-after-history-differs-from-single-signing"), fmt.Sprintf("%s: signatures after [%s] = %v, after [%s] alone = %v", x.st.ID, histString(fam, h), obs.Sigs, o.Name, r.Sigs), x.replay(h), weight)
